@@ -281,3 +281,47 @@ def ColorState.save {V} (s : ColorState V) : ColorFile V := ⟨s.swatches, s.con
 def ColorFile.load {V} (S : CSem V) (f : ColorFile V) : ColorState V := ColorState.ofConfig S f.config f.base
 
 end Darsia.Persist
+
+namespace Darsia.Persist
+
+/-! ### CurvatureCorrection with its persisted grid cache
+
+`save` also writes `cache` (the precomputed sampling grid together with the input shape it was computed for) and `load`
+restores it. `correct_array` reuses the cached grid only for an input of that very shape and otherwise recomputes it
+from `config` (in-memory path; the on-disk cache of `use_cache` is the same memoisation, not modelled). -/
+
+structure CurvSem (V : Type) where
+  one : V
+  /-- `_precompute_transformed_coordinates`: the sampling grid, a function of the configuration and the input shape -/
+  grid : V → V → V
+
+structure CurvStateC (V : Type) where
+  config : V
+  interpolationOrder : V
+  /-- `(input_shape, grid)` once a grid has been computed -/
+  cache : Option (V × V)
+
+structure CurvFileC (V : Type) where
+  config : V
+  interpolation_order : Option V
+  cache : Option (V × V)
+
+def CurvStateC.save {V} (s : CurvStateC V) : CurvFileC V := ⟨s.config, some s.interpolationOrder, s.cache⟩
+def CurvFileC.load {V} (S : CurvSem V) (f : CurvFileC V) : CurvStateC V :=
+  { config := f.config, interpolationOrder := f.interpolation_order.getD S.one, cache := f.cache }
+
+/-- the grid `correct_array` samples with for an input of shape `sh`, and the state afterwards -/
+def CurvStateC.apply {V} [DecidableEq V] (S : CurvSem V) (s : CurvStateC V) (sh : V) : V × CurvStateC V :=
+  match s.cache with
+  | some (sh0, g) => if sh0 = sh then (g, s) else (S.grid s.config sh, { s with cache := some (sh, S.grid s.config sh) })
+  | none => (S.grid s.config sh, { s with cache := some (sh, S.grid s.config sh) })
+
+/-- the cache holds the grid of the object's OWN configuration -/
+def CurvStateC.CacheOK {V} (S : CurvSem V) (s : CurvStateC V) : Prop :=
+  ∀ sh g, s.cache = some (sh, g) → g = S.grid s.config sh
+
+/-- a `load` that changes the configuration after restoring the cache (the double `_adapt_config` regression) -/
+def CurvFileC.loadAdapting {V} (S : CurvSem V) (adapt : V → V) (f : CurvFileC V) : CurvStateC V :=
+  { config := adapt f.config, interpolationOrder := f.interpolation_order.getD S.one, cache := f.cache }
+
+end Darsia.Persist
